@@ -33,6 +33,10 @@ CHECKS = {
              text="Bounded-exhaustive: all histories to depth 8 (quick) / 10 (thorough) over 7 outcome kinds x 2 prompts, clock advances below/at the recovery timeout and manual reset, for thresholds 1..4, all gate logics, breaker and cache on/off; TLC evaluates NoEarlyTrip, TripsByThreshold, Isolation (no agent call, no energy), ProbeAdmitted, ProbeSuccessCloses, ProbeFailureReopens, BlocksNotFailures, DisabledNeverOpen on every edge.",
              note="Trusted: TLC/SANY, stub agents, virtual clock by namespace substitution, failure classification by scripted verdicts as stated in DESIGN.md section 6.",
              ref="DESIGN.md section 4 C08"),
+ "C03": dict(technique="TLA+ spec (Capabilities.tla) model-checked with TLC; real Mitochondria + Nucleus tool loop explored by BFS over registrations and calls on every entry point, every edge judged by TLC (Trace_Capabilities.tla); TLC -simulate behaviours replayed",
+             text="Bounded-exhaustive: all allowed-capability sets over 2-3 capabilities (incl. empty and unrestricted), tools registered and re-registered with every required-capability subset (SimpleTool and duck-typed), all interleavings to depth 5 (quick) / 7 (thorough) of register / metabolize auto / metabolize forced / execute_tool_call / LLM tool loop with a scripted provider / repair; TLC evaluates NoUnauthorisedRun and RefusalReported on every edge from counting tool bodies.",
+             note="Trusted: TLC/SANY, counting tool stubs, scripted provider; refusal inside the LLM loop is read from the error text fed back to the provider.",
+             ref="DESIGN.md section 4 C03"),
 }
 NOT_APPLICABLE = []
 
